@@ -296,13 +296,7 @@ func sites(s gschema.Schema, t gschema.Term, v any, budget int) []site {
 		}
 	case "disj":
 		// descend into the branch the value belongs to, and switch branch once
-		branch := -1
-		for i, b := range t.Sub {
-			if indexOf(s.Values(b, budget), v) >= 0 {
-				branch = i
-				break
-			}
-		}
+		branch := branchOf(s, t, v, budget)
 		if branch < 0 {
 			leaf()
 			break
@@ -496,12 +490,69 @@ func posClass(s gschema.Schema, ja, jb string) string {
 	if !found {
 		return "no difference"
 	}
-	return strings.Join(chain, " > ") + " [" + what + "]"
+	// The class is the offending position itself: its term token, the
+	// reference hop it was reached through (the template treats nullable
+	// references to collections specially), and "optional" when the
+	// difference is a member being absent. The way down from the root is
+	// deliberately not part of the class: the equality template recurses
+	// context-free, and one defect would otherwise yield one kind per context.
+	last := len(chain) - 1
+	out := chain[last]
+	k := last - 1
+	if k >= 0 && strings.HasPrefix(chain[k], "ref") {
+		out = chain[k] + " > " + out
+		k--
+	}
+	if k >= 0 && chain[k] == "field?" && strings.Contains(what, "absent") {
+		out = "optional " + out
+	}
+	return out + " [" + what + "]"
 }
 
-// shapeClass describes the root's fields (used when there is no differing position).
+// shapeClass is the class used when there is no differing position (one
+// document decoded twice, v.Equals(v)): the set of leaf positions of the
+// root type, each as [optional] [ref >] token. The containers on the way are
+// not part of it (see posClass).
 func shapeClass(s gschema.Schema) string {
-	return termClass(s, s.Objs[0].T, 3)
+	set := map[string]bool{}
+	var walk func(t gschema.Term, prefix string, budget int)
+	walk = func(t gschema.Term, prefix string, budget int) {
+		switch t.K {
+		case "ref":
+			rt, nb, ok := resolve(s, t, budget)
+			if !ok || budget <= 0 {
+				set[prefix+token(t)] = true
+				return
+			}
+			rt.Nullable = false
+			if rt.K == "struct" || rt.K == "array" || rt.K == "map" {
+				walk(rt, "", nb)
+				return
+			}
+			walk(rt, prefix+token(t)+" > ", nb)
+		case "struct":
+			for i, f := range t.Fields {
+				p := ""
+				if !f.Required {
+					p = "optional "
+				}
+				walk(t.Sub[i], p, budget)
+			}
+		case "array":
+			walk(t.Sub[0], "", budget)
+		case "map":
+			walk(t.Sub[1], "", budget)
+		default:
+			set[prefix+token(t)] = true
+		}
+	}
+	walk(s.Objs[0].T, "", 3)
+	var l []string
+	for k := range set {
+		l = append(l, k)
+	}
+	sort.Strings(l)
+	return "leaves {" + strings.Join(l, ", ") + "}"
 }
 
 func termClass(s gschema.Schema, t gschema.Term, budget int) string {
@@ -531,4 +582,57 @@ func termClass(s gschema.Schema, t gschema.Term, budget int) string {
 		out += "<" + termClass(s, t.Sub[1], budget) + ">"
 	}
 	return out
+}
+
+// branchOf tells which branch of a union a JSON value belongs to: the branch
+// whose alphabet contains it, else the first branch of the same JSON kind
+// (for struct branches with a discriminator constant: the one whose constant matches).
+func branchOf(s gschema.Schema, t gschema.Term, v any, budget int) int {
+	for i, b := range t.Sub {
+		if indexOf(s.Values(b, budget), v) >= 0 {
+			return i
+		}
+	}
+	for i, b := range t.Sub {
+		rb, _, ok := resolve(s, b, budget)
+		if !ok {
+			continue
+		}
+		switch x := v.(type) {
+		case string:
+			if rb.K == "scalar" && (rb.A == "string" || rb.A == "datetime") || rb.K == "enum" && rb.A == "str" {
+				return i
+			}
+		case bool:
+			if rb.K == "scalar" && rb.A == "bool" {
+				return i
+			}
+		case json.Number:
+			if rb.K == "scalar" && rb.A != "string" && rb.A != "bool" && rb.A != "any" && rb.A != "datetime" || rb.K == "enum" && rb.A == "int" {
+				return i
+			}
+		case []any:
+			if rb.K == "array" {
+				return i
+			}
+		case map[string]any:
+			if rb.K == "map" {
+				return i
+			}
+			if rb.K == "struct" {
+				match := true
+				for k, f := range rb.Fields {
+					if c := rb.Sub[k]; c.K == "const" && strings.HasPrefix(c.A, "disc:") {
+						if got, _ := x[f.Name].(string); got != strings.TrimPrefix(c.A, "disc:") {
+							match = false
+						}
+					}
+				}
+				if match {
+					return i
+				}
+			}
+		}
+	}
+	return -1
 }
